@@ -50,7 +50,16 @@ def main():
     a = ap.parse_args()
     items = []
     if not a.seeded:
+        import glob, importlib.util
         from catalogue import BREAKS
+        BREAKS = list(BREAKS)
+        for fn in sorted(glob.glob(os.path.join(ROOT, "selftest", "breaks_*.py"))):
+            spec = importlib.util.spec_from_file_location(os.path.basename(fn)[:-3], fn)
+            m = importlib.util.module_from_spec(spec)
+            spec.loader.exec_module(m)
+            for b in m.BREAKS:
+                b.setdefault("tier", "quick")
+                BREAKS.append(b)
         for b in BREAKS:
             items.append(dict(name=b["name"], props=[b["prop"]], file=b["file"], old=b["old"], new=b["new"], tier=b["tier"]))
     sd = os.path.join(ROOT, "seeded")
